@@ -131,4 +131,12 @@ PROPS = {
         rule="both parsers: every input of length 0..1, length 2 sampled (thorough: all 65 536), random 3..14 octets; well-formed lists from an independent figure-based encoder (all 7 parameter kinds, 0/1/7/63 parameters; all 18 component types, 0..15 filters, operations 1..6 incl. delete lists) parsed whole, truncated at every octet and mutated; unknown parameter / component identifiers planted at identifier positions; every (identifier, length) mismatch 0..8 x 0..5; serialise-and-reparse of the same lists; counts at the 6-bit / 4-bit boundaries and oversize values for the correspondence; non-trivial = distinct op answered with a value",
         assumptions=["lists outside the well-formed set (64+ parameters, 16+ filters, flow label >= 2^19, wrong address lengths, > 255 octets of components) are compared between model and implementation but not judged by the oracle"],
     ),
+    "C18": dict(
+        level="proof", modules=["NasVerif.Props.C18"], parts=[],
+        streams=[("uepolicy", 200, 1500)], oracle="C18",
+        trusted_base=TB_COMMON[:1] + ["hand-written Model/UePolicy.lean mirrors the uePolicyContainer package (nested length-prefixed parsers over bytes.Buffer.Next with uint16 length arithmetic that wraps, io.EOF ending every list walker, marshalers that recompute lengths); tied by the correspondence run",
+                                        "encoding/binary / bytes.Buffer semantics modelled (Model/Qos.lean readers + readBytes)",
+                                        "tools/harness/uepolicy.go: independent Annex-D encoders for wire inputs; the PLMN oracle compares SetPlmnDigit with nasConvert.PlmnIDToNas and the TS 24.008 layout"],
+        rule="three decoders: every input of length 0..1, length 2 sampled (thorough: all 65 536), random 3..16 octets biased to small length fields; well-formed lists (0..3 sublists x 0..3 instructions x 0..3 parts, empty and 300-octet contents) whole, truncated at every octet, every 16-bit window set to 0/1/2/3/0xffff, mutated, and wrapped as command / reject messages; results likewise; messages built through the API and header/body mismatches; all 256 message types; PLMN setters of sublist and sub-result for every MCC 100..999 x 7 MNCs (thorough: all 990) and values around the accepted range; non-trivial = distinct op answered with a value",
+    ),
 }
